@@ -35,6 +35,8 @@ def deviations():
         for fi in (1, 2, 3):
             devs.append(dict(fmg=1, fmg_cycle=fc, fmg_it=fi))
     devs += [dict(pre=2, post=1), dict(pre=1, post=2), dict(pre=2, post=2)]
+    # one-sided smoothing (pre- or post-smoothing only) is an ordinary multigrid configuration: it is where a swapped step counter shows
+    devs += [dict(pre=0, post=1), dict(pre=0, post=2), dict(pre=1, post=0), dict(pre=2, post=0), dict(pre=0, post=3), dict(pre=3, post=0)]
     devs += [dict(maxlev=2), dict(maxlev=3)]
     devs += [dict(norm=1), dict(norm=2)]
     devs += [dict(abstol=1e-8, reltol=-1.0), dict(abstol=-1.0, reltol=1e-8), dict(abstol=1e-6, reltol=1e-6)]
